@@ -40,7 +40,7 @@ def random_histories(ck, n, maxlen):
 def run(ck):
     quick = ck.tier == "quick"
     ck.cov["rule"] = ("(1) CtrlProto.tla model-checked (invariants OneRspPerReq, RspInReqOrder, Refusals, Settles; action properties "
-                      "PausedSilent, DrainPost, ResetPost, NoLateRsp, OneAtATime; liveness AllAnswered, QueuedServed). (2) every emitted "
+                      "PausedSilent, DrainPost, ResetPost, NoLateRsp, OneAtATime; in the thorough tier also liveness AllAnswered, QueuedServed under weak fairness). (2) every emitted "
                       "behaviour (row, traffic, verb sequence, outcomes, final state) of the agent's row replayed on the real agent with "
                       "sender pacing wait/burst: the driver compares each response (id, command, outcome) and the settled control state "
                       "with the model, and CtrlTrace.tla checks the statement's rules on the events recorded at the agent's own Control/Top "
@@ -53,7 +53,7 @@ def run(ck):
         "pre-reset request = data request received at the agent's Top port before the reset ack was sent",
         "the projected component state is compared only after ticks with exactly one acknowledgment and no other command taken",
         "a request accepted before a pause and never answered after enable is recorded as a note (request_never_served), not a verdict",
-        "TLB built with its default Latency 4: W2 (one-stage pipeline with delay 1 never emits) is not fixed in the repository",
+        "TLB built with its default Latency 4 (>= 2), which does not depend on W2 (one-stage pipeline with delay 1; fixed in the repository while this check was being written)",
         "each run ends with an epilogue Enable and two more data requests sent by the driver",
     ]
     matrix, by_kind, r = ctrlcheck.model(ck, "CtrlProto_q.cfg", workers=8, timeout=1500)
@@ -62,7 +62,7 @@ def run(ck):
         _, by4, _ = ctrlcheck.model(ck, "CtrlProto_t.cfg", workers=8, timeout=3000)
         for kind, bs in by4.items():
             by_kind[kind] += [b for b in bs if len(b["seq"]) == 4]
-    ctrlcheck.liveness(ck)
+        ctrlcheck.liveness(ck)   # fairness properties AllAnswered, QueuedServed (thorough only: one more JVM)
     ck.cov["support_matrix"] = matrix
     ck.cov["model_behaviours"] = sum(len(v) for v in by_kind.values())
 
@@ -76,9 +76,9 @@ def run(ck):
             ck.rng.shuffle(long3)
             for b in short:
                 hs += [hist(b, p) for p in PACINGS]
-            for b in long3[:70]:
+            for b in long3[:40]:
                 hs.append(hist(b, ck.rng.choice(PACINGS)))
-            n_seq[kind] = (len(short), min(70, len(long3)))
+            n_seq[kind] = (len(short), min(40, len(long3)))
         else:
             upto3 = [b for b in bs if len(b["seq"]) <= 3]
             len4 = [b for b in bs if len(b["seq"]) == 4 and b["traffic"]]
@@ -91,7 +91,7 @@ def run(ck):
         per_kind[kind] = hs
     ck.cov["sequences_per_row"] = {k: dict(exhaustive=v[0], sampled_or_traffic_only=v[1]) for k, v in n_seq.items()}
     ck.cov["exhaustive"] = True
-    ck.cov["exhaustive_scope"] = ("all verb sequences of length <=2 x traffic x pacing on 12 agents; length 3: seeded sample of 70 per row"
+    ck.cov["exhaustive_scope"] = ("all verb sequences of length <=2 x traffic x pacing on 12 agents; length 3: seeded sample of 40 per row"
                                   if quick else "all verb sequences of length <=3 x traffic x 2 pacings, all of length 4 with traffic, on 12 agents")
 
     found, notes = ctrlcheck.replay(ck, "replay", matrix, per_kind, nreq=6, timeout=1500 if quick else 3000, shards=4 if quick else 6)
